@@ -108,7 +108,7 @@ impl Decoder for LinesCodec {
                 LineOut::Invalid => r is Err,          // invalid UTF-8 is an error, never a corrupted string
                 LineOut::NeedMore => false,
             },
-//@insert before="match buf.last()"
+//@insert before="match buf.last()" alt_after="src.advance(1);"
         proof {
             let o = old(src)@;
             assert(is_first_nl(o, len as int));
